@@ -19,7 +19,7 @@ BOUNDS = {
     "quick": dict(nest_depth=2, nest_garbage=2, nest_prev_cont=False, nest_ic=(True,)),
     "thorough": dict(nest_depth=3, nest_garbage=4, nest_prev_cont=True, nest_ic=(True, False), depth3="1 garbage text, previous statement not continued, comments ignored"),
 }
-GARBAGE = ["@@@ ???", "this is not fortran", "1 2 3", "= = ="]
+GARBAGE = ["@@@ ???", "this is not fortran", "1 2 3", "= = =", "zz :"]  # the last one: a bare construct name
 RENDER = ["one", "two", "three-comment"]
 
 
@@ -33,7 +33,7 @@ def render_garbage(g, mode, indent):
     return [indent + a + " &", indent + "! comment inside", indent + "  & " + c + " &", indent + "  " + (d or "?")]
 
 
-def build(prog, si, g, mode, after, prev_cont):
+def build(prog, si, g, mode, after, prev_cont, keep_label=False):
     """source text with statement si replaced; returns (text, line_no, line_text)"""
     ds = corpus.depths(prog)
     lines = []
@@ -44,6 +44,9 @@ def build(prog, si, g, mode, after, prev_cont):
         ind = " " * (1 + 2 * d)
         if i == si:
             gl = render_garbage(g, mode, ind)
+            if keep_label and s.label:
+                # the statement's label stays in front of the garbage
+                gl[0] = ind + s.label + " " + gl[0].lstrip()
             lines += gl
             target = len(lines)
             if after:
@@ -176,10 +179,10 @@ def run(task):
             for gi, g in enumerate(garbage):
                 for mode in RENDER:
                     for after in (False, True):
-                        for prev_cont in pcs:
+                        for prev_cont, keep_label in [(pc, kl) for pc in pcs for kl in ((False, True) if (s.label and full) else (False,))]:
                             if prev_cont and si == 0:
                                 continue
-                            text, ln, lt = build(prog, si, g, mode, after, prev_cont)
+                            text, ln, lt = build(prog, si, g, mode, after, prev_cont, keep_label)
                             for std in stds:
                                 for ic in ics:
                                     res.evals += 1
